@@ -168,6 +168,23 @@ def slot_writes_only_fresh(root):
     return ok
 
 
+QNAMES = ["QUOTER", "REQUOTER", "PATH_QUOTER", "PATH_REQUOTER", "QUERY_QUOTER", "QUERY_REQUOTER", "QUERY_PART_QUOTER", "FRAGMENT_QUOTER",
+          "FRAGMENT_REQUOTER", "UNQUOTER", "PATH_UNQUOTER", "PATH_SAFE_UNQUOTER", "QS_UNQUOTER"]
+
+
+def wiring(root):
+    """which quoter / unquoter constants each function of _url.py, _query.py and _parse.py refers to"""
+    out = []
+    for mod in ("_url.py", "_query.py", "_parse.py"):
+        tree = ast.parse(open(os.path.join(root, "yarl", mod)).read())
+        for fn in ast.walk(tree):
+            if isinstance(fn, (ast.FunctionDef, ast.AsyncFunctionDef)):
+                used = sorted({n.id for n in ast.walk(fn) if isinstance(n, ast.Name) and n.id in QNAMES})
+                if used:
+                    out.append((mod[:-3].lstrip("_") + "." + fn.name, used))
+    return sorted(out)
+
+
 def gil_facts(root):
     pyx = open(os.path.join(root, "yarl", "_quoting_c.pyx")).read()
     code = "\n".join(l.split("#")[0] for l in pyx.splitlines())
@@ -240,6 +257,8 @@ def main():
     sw = slot_writers(root)
     w("def slotWriters : List String := [" + ", ".join(f"\"{x}\"" for x in sw) + "]")
     w(f"def slotWritesOnlyFresh : Bool := {lean_bool(slot_writes_only_fresh(root))}")
+    wr = wiring(root)
+    w("def wiring : List (String × List String) := [" + ", ".join("(\"%s\", [%s])" % (k, ", ".join('"%s"' % x for x in v)) for k, v in wr) + "]")
     g = gil_facts(root)
     for k, v in g.items():
         w(f"def {k} : Bool := {lean_bool(v)}")
